@@ -54,10 +54,17 @@ def build_harness(race=False, into=None):
     """Rebuild the driver from the current working tree of the repository (hooks on)."""
     bindir = into or BIN
     os.makedirs(bindir, exist_ok=True)
+    harness = HARNESS
+    if REPO != "/repo":
+        # a scratch copy of the repository (mutation self-test): build from a private copy of the harness so that
+        # the generated go.mod of concurrent runs against /repo is left alone
+        harness = os.path.join(bindir, "harness-src")
+        shutil.rmtree(harness, ignore_errors=True)
+        shutil.copytree(HARNESS, harness)
     src_sum = os.path.join(REPO, "src", "go.sum")
-    shutil.copyfile(src_sum, os.path.join(HARNESS, "go.sum"))
+    shutil.copyfile(src_sum, os.path.join(harness, "go.sum"))
     # the harness module repeats the repository's own requirements (same versions, nothing to resolve offline)
-    gomod = os.path.join(HARNESS, "go.mod")
+    gomod = os.path.join(harness, "go.mod")
     src_mod = open(os.path.join(REPO, "src", "go.mod")).read()
     reqs = "\n".join(re.findall(r"^require \([^)]*\)", src_mod, re.M | re.S))
     gover = re.search(r"^go (\S+)", src_mod, re.M).group(1)
@@ -72,7 +79,7 @@ def build_harness(race=False, into=None):
         cmd.insert(2, "-race")
     cmd.append("./cmd/drive")
     t0 = time.time()
-    p = subprocess.run(cmd, cwd=HARNESS, env=GOENV, capture_output=True, text=True)
+    p = subprocess.run(cmd, cwd=harness, env=GOENV, capture_output=True, text=True)
     if p.returncode != 0:
         raise Inconclusive("harness build failed:\n" + p.stdout + p.stderr)
     log("[build] %s in %.1fs" % (name, time.time() - t0))
